@@ -539,7 +539,7 @@ class C14(Prop):
             'incarnations or is in use on >= 2 connections (enumeration chunks all count); sink-names: open/message/close sequences on the '
             'connection-id interface, names distinct and `X:` exact (non-trivial = >= 3 connections with a re-open); labels-in-sessions: scripted sessions in which connections '
             'are selected / deselected while messages stream in and labels are given to filter / breakpoint commands, then `list <label>` is compared with the '
-            'model\'s mention set over that connection\'s own record (non-trivial = >= 2 listings checked after a selection and a label filter); long-session-labels: labels of objects in sessions expanded from a template to thousands of messages (incarnation 703 = aaa and beyond) as matchers and through `list`; connection-command-labels: 27..1060 connections opened on the connection-id interface, `connection LABEL` + `list` and `list LABEL:` must show exactly that connection\'s messages for sampled labels, the first, the last and any label that reads like a keyword of the connection command (ALL = the 1000th); distinct by SHA-1 of the case.')
+            'model\'s mention set over that connection\'s own record (non-trivial = >= 2 listings checked after a selection and a label filter); long-session-labels: labels of objects in sessions expanded from a template to thousands of messages (incarnation 703 = aaa and beyond) as matchers and through `list`; connection-command-labels: 27..1060 connections opened on the connection-id interface, `connection LABEL` + `list` and `list LABEL:` must show exactly that connection\'s messages for sampled labels, the first, the last and any label that reads like a keyword of the connection command (ALL = the 1000th); distinct by SHA-1 of the case. labels-in-sessions also selects by lower-case names, by app ids that read like names (the name wins) and by names that denote nothing (refused, selection unchanged).')
     assumptions = ['reference model of DESIGN appendix B decides which messages are on / mention / create / destroy an object']
     stages = [Letters(), LettersFar(), Labels(), LongLabels(), LabelsInSessions(), ManyConnections(), SinkNames(), ConnectionCommandLabels()]
 
